@@ -31,6 +31,8 @@ mod c15;
 #[cfg(feature = "ark")]
 mod r1;
 #[cfg(feature = "ark")]
+mod tamper;
+#[cfg(feature = "ark")]
 mod c16;
 mod constants;
 mod grp;
